@@ -395,3 +395,53 @@ def check_scan_thread_keeps_failure(ctx, rule):
                   "with parse_mark refusing types %s of 3, scan_thread %s: a definition that conflicts with another "
                   "thread's is accepted" % ([i for i in range(3) if refused[i]], what))
     ctx.need(n == 8, "%d scan_thread cases" % n)
+
+
+# ------------------------------------------------------------------------------------------------ metadata
+
+def check_lib_version_mandatory_everywhere(ctx, rule):
+    """ovni.lib.version and ovni.lib.commit are mandatory attributes of every thread stream: report_libovni_version
+    is evaluated on three threads with one of the two keys (or the whole metadata) missing in the first, the second or
+    the third one; it must fail in all nine cases and succeed when nothing is missing."""
+    prog = ctx.prog
+    eff = effects.Effects(prog)
+    fn = prog.fn("report_libovni_version", "src/emu/system.c")
+
+    def F(rec, field):
+        return ((rec, field),)
+    cases = [(None, None)] + [(k, what) for k in range(3) for what in ("ovni.lib.version", "ovni.lib.commit", "metadata")]
+    n = 0
+    for k, what in cases:
+        def s_get(ex_, st, a, f, e, k=k, what=what):
+            o, key = a[0], a[1]
+            if o[0] != "ptr" or key[0] != "str":
+                return [(TOP, {})]
+            i = int(o[1][-1])
+            if i == k and key[1] == what:
+                return [(NULL, {})]
+            return [(("str", "1.11.0" if key[1].endswith("version") else "abcdef"), {})]
+
+        def s_strcmp(ex_, st, a, f, e):
+            if a[0][0] == "str" and a[1][0] == "str":
+                return [(INT(0 if a[0][1] == a[1][1] else 1), {})]
+            return None
+        ex = absint.Explorer(prog, effects=eff, loop_bound=5,
+                             summaries={"json_object_dotget_string": s_get, "json_object_get_string": s_get, "strcmp": s_strcmp})
+        store = {("SYS", F("system", "threads")): PTR("T0")}
+        for i in range(3):
+            store[("T%d" % i, F("thread", "gnext"))] = PTR("T%d" % (i + 1)) if i < 2 else NULL
+            store[("T%d" % i, F("thread", "meta"))] = NULL if (i == k and what == "metadata") else PTR("META%d" % i)
+            store[("T%d" % i, F("thread", "id"))] = ("str", "thread.%d" % i)
+        outs = [o for o in ex.run(fn, [PTR("SYS")], store) if o.kind in ("ret", "exit")]
+        ctx.need(outs and all(o.kind != "ret" or (o.ret is not None and o.ret[0] == "int") for o in outs),
+                 "report_libovni_version cannot be evaluated on three threads")
+        n += 1
+        succ = [o for o in outs if o.kind == "ret" and o.ret[1] == 0]
+        if k is None:
+            ctx.check(len(succ) == len(outs), rule, "report_libovni_version:complete-metadata", fn.loc(),
+                      "three threads with complete and equal library attributes are refused")
+        else:
+            ctx.check(not succ, rule, "report_libovni_version:thread-%d-lacks-%s" % (k, what), fn.loc(),
+                      "the %s thread of three lacks %s and report_libovni_version still succeeds on %d of %d paths: a "
+                      "stream without a mandatory attribute is emulated as ok" % (("first", "second", "third")[k], what, len(succ), len(outs)))
+    ctx.need(n == 10, "%d library-attribute cases" % n)
